@@ -52,3 +52,69 @@ Print Assumptions C15_stable.
 
 Example C15_example : sort_action_of (fun _ => 0%Z) 115 <> NoSort /\ sort_action_of (fun _ => 0%Z) 120 = NoSort.
 Proof. split; [discriminate | reflexivity]. Qed.
+
+(** ---- the letter table of -o against the model's sort actions; ties; the frame ---- *)
+From SQ Require Import Base Table Sort Display Obs SortLetters.
+
+
+(** specification-side letter table (s, a/A, v/V, N/S, W/E, d/D, c/C with their keys and directions, written without reference to the model's sort_action_of): with c the last recognised letter, the rows are monotone in that letter's key in that letter's direction *)
+Theorem C15_letters_sorted : forall (dkey : row -> Z) (ob : list (list N)) (t : table) (pre : list N) (c : N) (post : list N) (k : row -> Z) (d : direction), List.concat ob = pre ++ c :: post -> letter_spec dkey c = Some (k, d) -> (forall x : N, In x post -> letter_spec dkey x = None) -> Sorted.StronglySorted (monotone_by k d) (print_order dkey ob t).
+Proof. exact letters_sorted. Qed.
+Check C15_letters_sorted : forall (dkey : row -> Z) (ob : list (list N)) (t : table) (pre : list N) (c : N) (post : list N) (k : row -> Z) (d : direction), List.concat ob = pre ++ c :: post -> letter_spec dkey c = Some (k, d) -> (forall x : N, In x post -> letter_spec dkey x = None) -> Sorted.StronglySorted (monotone_by k d) (print_order dkey ob t).
+Print Assumptions C15_letters_sorted.
+
+(** the letters that sort are exactly the thirteen of the table; every other character of -o is ignored *)
+Theorem C15_letter_table_complete : forall (dkey : row -> Z) (c : N), letter_spec dkey c = None <-> sort_action_of dkey c = NoSort.
+Proof. exact letter_spec_none_iff. Qed.
+Check C15_letter_table_complete : forall (dkey : row -> Z) (c : N), letter_spec dkey c = None <-> sort_action_of dkey c = NoSort.
+Print Assumptions C15_letter_table_complete.
+
+(** no letter of the table in -o: strictly ascending address order *)
+Theorem C15_letters_default : forall (dkey : row -> Z) (ob : list (list N)) (t : list (N * row)), (forall x : N, In x (List.concat ob) -> letter_spec dkey x = None) -> NoDup (map fst t) -> Sorted.StronglySorted (fun a b : N * row => fst a < fst b) (print_order dkey ob t).
+Proof. exact letters_default. Qed.
+Check C15_letters_default : forall (dkey : row -> Z) (ob : list (list N)) (t : list (N * row)), (forall x : N, In x (List.concat ob) -> letter_spec dkey x = None) -> NoDup (map fst t) -> Sorted.StronglySorted (fun a b : N * row => fst a < fst b) (print_order dkey ob t).
+Print Assumptions C15_letters_default.
+
+(** rows that tie on the last key keep the order the earlier letters (and finally the address) gave them (non-reversing letters) *)
+Theorem C15_ties_keep_previous_order : forall (dkey : row -> Z) (ob : list (list N)) (t : table) (pre : list N) (c : N) (post : list N) (k : row -> Z) (d : direction) (v : Z), List.concat ob = pre ++ c :: post -> letter_spec dkey c = Some (k, d) -> c <> 65 -> c <> 68 -> (forall x : N, In x post -> letter_spec dkey x = None) -> filter (fun p : N * row => (k (snd p) =? v)%Z) (print_order dkey ob t) = filter (fun p : N * row => (k (snd p) =? v)%Z) (fold_left (apply_sort dkey) pre (stable_sort (fun p : N * row => Z.of_N (fst p)) t)).
+Proof. exact ties_keep_previous_order_spec. Qed.
+Check C15_ties_keep_previous_order : forall (dkey : row -> Z) (ob : list (list N)) (t : table) (pre : list N) (c : N) (post : list N) (k : row -> Z) (d : direction) (v : Z), List.concat ob = pre ++ c :: post -> letter_spec dkey c = Some (k, d) -> c <> 65 -> c <> 68 -> (forall x : N, In x post -> letter_spec dkey x = None) -> filter (fun p : N * row => (k (snd p) =? v)%Z) (print_order dkey ob t) = filter (fun p : N * row => (k (snd p) =? v)%Z) (fold_left (apply_sort dkey) pre (stable_sort (fun p : N * row => Z.of_N (fst p)) t)).
+Print Assumptions C15_ties_keep_previous_order.
+
+(** for A and D (sort ascending, then reverse) tie groups appear in the reverse of the earlier order *)
+Theorem C15_ties_reversed_for_A_D : forall (dkey : row -> Z) (ob : list (list N)) (t : table) (pre : list N) (c : N) (post : list N) (k : row -> Z) (d : direction) (v : Z), List.concat ob = pre ++ c :: post -> letter_spec dkey c = Some (k, d) -> c = 65 \/ c = 68 -> (forall x : N, In x post -> letter_spec dkey x = None) -> filter (fun p : N * row => (k (snd p) =? v)%Z) (print_order dkey ob t) = rev (filter (fun p : N * row => (k (snd p) =? v)%Z) (fold_left (apply_sort dkey) pre (stable_sort (fun p : N * row => Z.of_N (fst p)) t))).
+Proof. exact ties_reversed_for_A_D_spec. Qed.
+Check C15_ties_reversed_for_A_D : forall (dkey : row -> Z) (ob : list (list N)) (t : table) (pre : list N) (c : N) (post : list N) (k : row -> Z) (d : direction) (v : Z), List.concat ob = pre ++ c :: post -> letter_spec dkey c = Some (k, d) -> c = 65 \/ c = 68 -> (forall x : N, In x post -> letter_spec dkey x = None) -> filter (fun p : N * row => (k (snd p) =? v)%Z) (print_order dkey ob t) = rev (filter (fun p : N * row => (k (snd p) =? v)%Z) (fold_left (apply_sort dkey) pre (stable_sort (fun p : N * row => Z.of_N (fst p)) t))).
+Print Assumptions C15_ties_reversed_for_A_D.
+
+(** a refresh is: header, separator, one rendered row per element of the print order, separator, optional counter line *)
+Theorem C15_frame_rows : forall (o : opts) (now : Z) (dkey : row -> Z) (dcell : row -> bytes) (s : state), render_frame o now dkey dcell s = [header_line o; separator_line o] ++ map (fun p : N * row => render_row o now dcell (snd p)) (print_order dkey (order_by o) (tbl s)) ++ [separator_line o] ++ (if count_df o then [counter_line (cnt s)] else []).
+Proof. exact frame_rows. Qed.
+Check C15_frame_rows : forall (o : opts) (now : Z) (dkey : row -> Z) (dcell : row -> bytes) (s : state), render_frame o now dkey dcell s = [header_line o; separator_line o] ++ map (fun p : N * row => render_row o now dcell (snd p)) (print_order dkey (order_by o) (tbl s)) ++ [separator_line o] ++ (if count_df o then [counter_line (cnt s)] else []).
+Print Assumptions C15_frame_rows.
+
+(** a refresh has exactly one line per tracked aircraft besides the three (four with -c) fixed lines *)
+Theorem C15_frame_row_count : forall (o : opts) (now : Z) (dkey : row -> Z) (dcell : row -> bytes) (s : state), Datatypes.length (render_frame o now dkey dcell s) = (3 + Datatypes.length (tbl s) + (if count_df o then 1 else 0))%nat.
+Proof. exact frame_row_count. Qed.
+Check C15_frame_row_count : forall (o : opts) (now : Z) (dkey : row -> Z) (dcell : row -> bytes) (s : state), Datatypes.length (render_frame o now dkey dcell s) = (3 + Datatypes.length (tbl s) + (if count_df o then 1 else 0))%nat.
+Print Assumptions C15_frame_row_count.
+
+(** with one row per address the addresses listed are a duplicate-free permutation of the table's addresses *)
+Theorem C15_frame_lists_each_once : forall (o : opts) (dkey : row -> Z) (s : state), NoDup (TableProofs.keys (tbl s)) -> NoDup (map fst (print_order dkey (order_by o) (tbl s))) /\ Permutation.Permutation (map fst (print_order dkey (order_by o) (tbl s))) (TableProofs.keys (tbl s)).
+Proof. exact frame_lists_each_once. Qed.
+Check C15_frame_lists_each_once : forall (o : opts) (dkey : row -> Z) (s : state), NoDup (TableProofs.keys (tbl s)) -> NoDup (map fst (print_order dkey (order_by o) (tbl s))) /\ Permutation.Permutation (map fst (print_order dkey (order_by o) (tbl s))) (TableProofs.keys (tbl s)).
+Print Assumptions C15_frame_lists_each_once.
+
+(** for every state reachable from the empty table by any lines and options *)
+Theorem C15_reachable_frame_lists_each_once : forall (o : opts) (now : Z) (ls : list (option (list N))) (s : state) (dkey : row -> Z), run_lines o now {| tbl := []; cnt := counters_new now (update_s o) |} ls = Ok s -> NoDup (map fst (print_order dkey (order_by o) (tbl s))) /\ Permutation.Permutation (map fst (print_order dkey (order_by o) (tbl s))) (TableProofs.keys (tbl s)).
+Proof. exact reachable_frame_lists_each_once. Qed.
+Check C15_reachable_frame_lists_each_once : forall (o : opts) (now : Z) (ls : list (option (list N))) (s : state) (dkey : row -> Z), run_lines o now {| tbl := []; cnt := counters_new now (update_s o) |} ls = Ok s -> NoDup (map fst (print_order dkey (order_by o) (tbl s))) /\ Permutation.Permutation (map fst (print_order dkey (order_by o) (tbl s))) (TableProofs.keys (tbl s)).
+Print Assumptions C15_reachable_frame_lists_each_once.
+
+(** every refresh the CLI model prints while reading any byte stream is the rendering of the state after some prefix of the lines, and lists each aircraft tracked at that moment exactly once *)
+Theorem C15_cli_every_refresh_lists_each_once : forall (o : opts) (now : Z) (bs : bytes) (frames : list (list bytes)) (f : list bytes), run_cli o now bs = Ok frames -> In f frames -> exists (pre suf : list (option (list N))) (s : state), text_lines bs = pre ++ suf /\ run_lines o now {| tbl := []; cnt := counters_new now (update_s o) |} pre = Ok s /\ f = render_frame o now (fun _ : row => 0%Z) (fun _ : row => str "?????") s /\ Datatypes.length f = (3 + Datatypes.length (tbl s) + (if count_df o then 1 else 0))%nat /\ NoDup (map fst (print_order (fun _ : row => 0%Z) (order_by o) (tbl s))) /\ Permutation.Permutation (map fst (print_order (fun _ : row => 0%Z) (order_by o) (tbl s))) (TableProofs.keys (tbl s)).
+Proof. exact cli_every_refresh_lists_each_once. Qed.
+Check C15_cli_every_refresh_lists_each_once : forall (o : opts) (now : Z) (bs : bytes) (frames : list (list bytes)) (f : list bytes), run_cli o now bs = Ok frames -> In f frames -> exists (pre suf : list (option (list N))) (s : state), text_lines bs = pre ++ suf /\ run_lines o now {| tbl := []; cnt := counters_new now (update_s o) |} pre = Ok s /\ f = render_frame o now (fun _ : row => 0%Z) (fun _ : row => str "?????") s /\ Datatypes.length f = (3 + Datatypes.length (tbl s) + (if count_df o then 1 else 0))%nat /\ NoDup (map fst (print_order (fun _ : row => 0%Z) (order_by o) (tbl s))) /\ Permutation.Permutation (map fst (print_order (fun _ : row => 0%Z) (order_by o) (tbl s))) (TableProofs.keys (tbl s)).
+Print Assumptions C15_cli_every_refresh_lists_each_once.
+
+
